@@ -148,8 +148,17 @@ impl CompileOut {
 }
 
 thread_local! {
-    static WORKDIR: std::cell::RefCell<Option<PathBuf>> = const { std::cell::RefCell::new(None) };
+    static WORKDIR: std::cell::RefCell<Option<WorkDir>> = const { std::cell::RefCell::new(None) };
     static LAST: std::cell::RefCell<Option<(u128, bool, CompileOut)>> = const { std::cell::RefCell::new(None) };
+}
+
+/// scratch directory of one worker thread, removed when the thread ends
+struct WorkDir(PathBuf);
+
+impl Drop for WorkDir {
+    fn drop(&mut self) {
+        let _ = std::fs::remove_dir_all(&self.0);
+    }
 }
 
 fn workdir() -> PathBuf {
@@ -160,17 +169,24 @@ fn workdir() -> PathBuf {
             let n = N.fetch_add(1, std::sync::atomic::Ordering::SeqCst);
             let d = target_dir().join("prog").join(format!("{}-{}", std::process::id(), n));
             let _ = std::fs::create_dir_all(&d);
-            *w = Some(d);
+            *w = Some(WorkDir(d));
         }
-        w.clone().unwrap()
+        w.as_ref().unwrap().0.clone()
     })
 }
 
+/// remove this process's scratch directories and those of processes that no longer exist
+/// (a worker killed by a signal, an interrupted run)
 pub fn cleanup_workdirs() {
     let d = target_dir().join("prog");
+    let me = std::process::id().to_string();
     if let Ok(rd) = std::fs::read_dir(&d) {
         for e in rd.flatten() {
-            if e.file_name().to_string_lossy().starts_with(&format!("{}-", std::process::id())) {
+            let name = e.file_name().to_string_lossy().to_string();
+            let pid = name.split('-').next().unwrap_or("").to_string();
+            // alive = a process of that id exists and is this engine (process ids are reused)
+            let alive = std::fs::read_to_string(std::path::Path::new("/proc").join(&pid).join("comm")).map(|c| c.trim() == "vprog").unwrap_or(false);
+            if pid == me || !alive {
                 let _ = std::fs::remove_dir_all(e.path());
             }
         }
@@ -185,7 +201,7 @@ pub fn compile(a: &Anchor, src: &str, link: bool) -> Result<CompileOut, String> 
     }
     let dir = workdir();
     let srcp = dir.join("prog.rs");
-    std::fs::write(&srcp, src).map_err(|e| format!("write program: {e}"))?;
+    std::fs::write(&srcp, src).map_err(|e| format!("harness: write program: {e}"))?;
     let bin = dir.join("prog.bin");
     let _ = std::fs::remove_file(&bin);
     let mut cmd = Command::new("rustc");
@@ -208,7 +224,7 @@ pub fn compile(a: &Anchor, src: &str, link: bool) -> Result<CompileOut, String> 
         cmd.args(["--crate-type", "bin", "--emit=metadata", "-o"]).arg(dir.join("prog.rmeta"));
     }
     cmd.arg(&srcp);
-    let out = cmd.output().map_err(|e| format!("rustc: {e}"))?;
+    let out = cmd.output().map_err(|e| format!("harness: rustc could not be run: {e}"))?;
     let stderr = String::from_utf8_lossy(&out.stderr).to_string();
     let mut diags = vec![];
     for line in stderr.lines() {
@@ -248,7 +264,7 @@ pub struct RunOut {
 pub fn run(bin: &Path, args: &[String], timeout: Duration) -> Result<RunOut, String> {
     use std::io::Read;
     use std::os::unix::process::ExitStatusExt;
-    let mut child = Command::new(bin).args(args).stdout(Stdio::piped()).stderr(Stdio::piped()).spawn().map_err(|e| format!("spawn program: {e}"))?;
+    let mut child = Command::new(bin).args(args).stdout(Stdio::piped()).stderr(Stdio::piped()).spawn().map_err(|e| format!("harness: spawn program: {e}"))?;
     let mut so = child.stdout.take().unwrap();
     let mut se = child.stderr.take().unwrap();
     let t_out = std::thread::spawn(move || {
@@ -264,13 +280,13 @@ pub fn run(bin: &Path, args: &[String], timeout: Duration) -> Result<RunOut, Str
     let start = Instant::now();
     let mut timed_out = false;
     let status = loop {
-        match child.try_wait().map_err(|e| e.to_string())? {
+        match child.try_wait().map_err(|e| format!("harness: wait: {e}"))? {
             Some(s) => break s,
             None => {
                 if start.elapsed() > timeout {
                     let _ = child.kill();
                     timed_out = true;
-                    break child.wait().map_err(|e| e.to_string())?;
+                    break child.wait().map_err(|e| format!("harness: wait: {e}"))?;
                 }
                 std::thread::sleep(Duration::from_millis(2));
             }
